@@ -22,6 +22,8 @@ mod c18;
 mod c19;
 mod c20;
 mod coqfmt;
+mod export;
+mod progen;
 mod gen;
 mod out;
 mod rng;
